@@ -77,7 +77,7 @@ class Server(tasking.Tasker):
         if sha is not None:
             self.sha = sha
             if not self.server:
-                self.server = PeerUdp(ha=sha, path='') #reopened by runner
+                self.server = PeerUdp(ha=sha) #reopened by runner
             self.server.ha = sha
 
         if dha is not None:
